@@ -55,7 +55,9 @@ def driverLine (inp obs : List String) : Bool × Bool × String × String :=
     let mo := send conn r
     match parseOutcome obs with
     | some o => (eqOutcome mo o, (verdict conn r o).isNone, (verdict conn r o).getD "-", showOutcome mo)
-    | none => (false, false, "C13/unparsable-observation", showOutcome mo)
+    | none =>
+      -- the request was accepted by every layer and handed to the connection, yet no request head reached the peer
+      (false, false, if obs == ["nothing-on-wire"] then "C13/request-not-written" else "C13/unparsable-observation", showOutcome mo)
   | ["proto", v, alpn] =>
     match protocolOf (parseVer v) with
     | none => (obs == ["panic"], true, "-", "panic")
